@@ -224,7 +224,11 @@ class Run(object):
         os.makedirs(EVID, exist_ok=True)
         with open(os.path.join(EVID, "%s.json" % self.pid), "w") as f:
             json.dump(ev, f, indent=1, default=str)
+        seen_known = set()
         for k, v in known_hits:
+            if k.get("signature") in seen_known:
+                continue
+            seen_known.add(k.get("signature"))
             print("KNOWN-FINDING: property=%s %s" % (self.pid, k.get("what", v["what"])))
         if new_violations:
             for v in new_violations:
